@@ -1,5 +1,7 @@
 	// ===== engine K harnesses for rcgen/src/sign_algo.rs =====
 	use crate::sign_algo::algo::*;
+	use crate::SignatureAlgorithm;
+	use std::hash::{Hash, Hasher};
 
 	fn same(got: &[u8], want: &[u8]) -> bool {
 		if got.len() != want.len() { return false; }
